@@ -73,16 +73,19 @@ def autocorr_1d_float(data):
     if nxy == 0:
         return result
 
-    A = nxy * Sxy - Sx_ * Sy_
+    # Missing values are replaced with the mean of the valid ones,
+    #   i.e. X[X==nodata] = mean(X[X!=nodata]), so only tuples where both are
+    #   valid contribute to the covariance, with deviations from those means:
+    #   Sum((Xi - Sx/nx) * (Yi - Sy/ny)), scaled by nx*ny
+    A = nx * ny * Sxy - nx * Sy * Sx_ - ny * Sx * Sy_ + nxy * Sx * Sy
 
-    # var(X[np.isfinite(X)]) Vairance of X excluding missing values
+    # Sum((Xi - mean)**2) over the valid values (filled values add nothing), times nx
     var_X = nx * Sxx - Sx * Sx
     var_Y = ny * Syy - Sy * Sy
 
-    # var(X) where missing values were replaced with mean,
-    #   i.e. X[X==nodata] = mean(X[X!=nodata])
-    var_X = var_X * nx / N
-    var_Y = var_Y * ny / N
+    # same scaling as A (nx*ny)
+    var_X = var_X * nx
+    var_Y = var_Y * ny
 
     if var_X < 1e-8 or var_Y < 1e-8:
         return result
@@ -155,16 +158,24 @@ def autocorr_1d_int(data, nodata):
     if nxy == 0:
         return result
 
-    A = nxy * float64(Sxy) - float64(Sx_) * float64(Sy_)
+    # Missing values are replaced with the mean of the valid ones,
+    #   i.e. X[X==nodata] = mean(X[X!=nodata]), so only tuples where both are
+    #   valid contribute to the covariance, with deviations from those means:
+    #   Sum((Xi - Sx/nx) * (Yi - Sy/ny)), scaled by nx*ny
+    A = (
+        float64(nx) * ny * float64(Sxy)
+        - nx * float64(Sy) * float64(Sx_)
+        - ny * float64(Sx) * float64(Sy_)
+        + nxy * float64(Sx) * float64(Sy)
+    )
 
-    # var(X[np.isfinite(X)]) Vairance of X excluding missing values
+    # Sum((Xi - mean)**2) over the valid values (filled values add nothing), times nx
     var_X = nx * float64(Sxx) - float64(Sx) * float64(Sx)
     var_Y = ny * float64(Syy) - float64(Sy) * float64(Sy)
 
-    # var(X) where missing values were replaced with mean,
-    #   i.e. X[X==nodata] = mean(X[X!=nodata])
-    var_X = var_X * nx / N
-    var_Y = var_Y * ny / N
+    # same scaling as A (nx*ny)
+    var_X = var_X * nx
+    var_Y = var_Y * ny
 
     if var_X < 1e-8 or var_Y < 1e-8:
         return result
